@@ -365,6 +365,7 @@ def run_clockuser(spec, acc):
         done = threading.Event()
         items = []
         base = [None]
+        due = {}
 
         def mk(k):
             def f(item, c):
@@ -392,7 +393,11 @@ def run_clockuser(spec, acc):
             base[0] = now
             for k in range(n):
                 if ck == 'AppClock':
+                    # AppClock keys on the physical present of each call: the key of
+                    # item k lies in [time before the call, time after it] + delta
+                    t0_ = main.elapsed_time()
                     c.sched(slots[k] * step, items[k])
+                    due[k] = (t0_ + slots[k] * step, main.elapsed_time() + slots[k] * step)
                 else:
                     c.sched_abs(now + slots[k] * step, items[k])
         # model
@@ -449,8 +454,16 @@ def run_clockuser(spec, acc):
         acc.case(h64((label, slots, sorted(actions.items()), sorted(rep.items()))),
                  nontrivial=moved_pending > 0)
         if not exact:
-            # drifting clock (no exact times): order of the wake-ups only
-            okay = [k for k, _ in got] == [k for k, _ in exp]
+            # drifting clock (no exact times): every item once, and the order of the
+            # wake-ups wherever the keys of two items are known to differ (on a
+            # loaded host the set-up task can be held up between two of its calls
+            # for longer than the distance of two slots)
+            gk = [k for k, _ in got]
+            okay = sorted(gk) == sorted(k for k, _ in exp) and not any(
+                due[b][1] < due[a][0]
+                for x, a in enumerate(gk) for b in gk[x + 1:] if a in due and b in due)
+            if okay and gk != [k for k, _ in exp]:
+                acc.count('appclock_order_differs_from_slots_because_of_call_times')
         else:
             okay = [k for k, _ in got] == [k for k, _ in exp] and all(
                 abs((t - base[0]) / step - e) < 1e-6
